@@ -1,13 +1,87 @@
-"""plans for properties whose workload is not the plain per-layout shape"""
+"""plans for properties whose workload is not the plain per-stream shape: C11
+(differential trace monitor over the other properties' drivers)."""
+import json
+import os
+
+import plans
+from plans import S, LAYOUT, XPAIR, TRANS, PY, ROOT
+
+DIFF = os.path.join(ROOT, "monitors", "diff11.py")
+
+# the other properties' corpora at reduced n (quick) / half n (thorough)
+C11_STREAMS = [
+    S("arith", n={"quick": 400, "thorough": 6000}),
+    S("rem", n={"quick": 800, "thorough": 10000}),
+    S("round", n={"quick": 1500, "thorough": 15000}),
+    S("convi", n={"quick": 80, "thorough": 600}),
+    S("xtype", chunks=XPAIR, n={"quick": 200, "thorough": 1200}),
+    S("flt", n={"quick": 800, "thorough": 8000}),
+    S("parse", n={"quick": 150, "thorough": 1200}, gen=os.path.join(ROOT, "gen", "c08.py")),
+    S("fmt", n={"quick": 150, "thorough": 1500}),
+    S("codec", n={"quick": 300, "thorough": 3000}),
+    S("wrap", n={"quick": 120, "thorough": 1200}),
+    S("trans", chunks=TRANS, n={"quick": 1500, "thorough": 20000}, shards={"quick": 16, "thorough": 4}),
+]
+
+RULE = ("one evaluation = one aligned pair of event lines: the same driver binary built with (debug-assertions + overflow-checks on) and "
+        "(both off) is run with identical arguments (same seed => identical operand sequence) over the corpora of C01, C02, C04-C10, "
+        "C12-C18 (arith, rem, round, convi, xtype, flt, parse, fmt, codec, wrap, trans drivers); every outcome token is compared; a "
+        "checked-only panic is permitted only at positions the per-property exact oracle marks as an operation without overflow handling "
+        "whose result does not fit, a zero divisor or a non-finite float; a coverage cell is (layout, op, same/permitted/value); all "
+        "cells count as non-trivial (every pair is a real two-profile comparison); misalignment of the two streams is INCONCLUSIVE")
 
 
 def plan(prop, tier, seed):
-    raise SystemExit("no plan for %s" % prop)
+    if prop != "C11":
+        raise SystemExit("no plan for %s" % prop)
+    bins = set()
+    for st in C11_STREAMS:
+        bins.update(plans.stream_bins(st, tier))
+
+    def jobs(bin_path):
+        js = []
+        for st in C11_STREAMS:
+            shards = st["shards"][tier]
+            for b in plans.stream_bins(st, tier):
+                for s in range(shards):
+                    args = ["--seed", str(seed), "--n", str(st["n"][tier]), "--shard", "%d/%d" % (s, shards)] + st["args"]
+                    mon = [PY, DIFF, json.dumps([bin_path("checked", b)] + args), json.dumps([bin_path("release", b)] + args)]
+                    if st.get("gen"):
+                        mon.append(json.dumps([PY, st["gen"], "--seed", str(seed), "--n", str(st["n"][tier]),
+                                               "--chunk", b.split("_", 1)[1], "--shard", "%d/%d" % (s, shards)]))
+                    js.append(dict(kind="mon", body=st["body"], mon=mon, timeout=1800 if tier == "quick" else 4 * 3600))
+        return js
+
+    def floor(M):
+        if M["evaluations"] == 0:
+            return "no aligned pairs observed"
+        need = ["add", "mul", "div", "rem", "round", "fi", "ff", "fl", "ps", "fm", "cd", "wbin", "wprog", "sqrt", "exp", "sin", "powi"]
+        missing = [o for o in need if M["ops"].get(o, 0) == 0]
+        if missing:
+            return "corpora never observed: %s" % ",".join(missing)
+        if not M["extra"].get("permitted_checked_only_panics"):
+            return "no permitted checked-only panic was observed: the checking profile does not seem to be active"
+        return None
+    return dict(module="diff11", build={"checked": set(bins), "release": set(bins)}, jobs=jobs, floor=floor, rule=RULE,
+                assumptions=plans.ASSUME + ["both builds receive identical operand sequences (checked line by line; misalignment aborts the run as inconclusive)"],
+                body=None)
 
 
 def replay_plan(prop, hdr, lines):
-    raise SystemExit("no replay plan for %s" % prop)
+    if prop != "C11":
+        raise SystemExit("no replay plan for %s" % prop)
+    op = lines[0].split()[0]
+    body = plans.ALL_OP_BODY[op]
+    b = plans.replay_bin(body, lines[0])
+
+    def job(bin_path, prof, inp):
+        mon = [PY, DIFF, json.dumps([bin_path("checked", b), "--stdin"]), json.dumps([bin_path("release", b), "--stdin"]),
+               json.dumps(["cat", inp])]
+        return dict(kind="mon", mon=mon, timeout=600)
+    return dict(build={"checked": {b}, "release": {b}}, profiles=["checked-vs-release"], job=job)
 
 
 def setup_build(bins):
-    pass
+    for st in C11_STREAMS:
+        for p in ("checked", "release"):
+            bins[p].update(plans.stream_bins(st, "quick"))
